@@ -5,6 +5,7 @@ import Ark.Props.C01Hist
 import Ark.Props.C01Struct
 import Ark.Proofs.GenBridge.Table
 import Ark.Props.C01Refine
+import Ark.Props.C04Hist
 
 namespace Ark.Props.C01
 open Ark Ark.World
@@ -162,5 +163,26 @@ theorem refine_reset_effect : type_of% @Ark.Props.C01Refine.reset_effect := @Ark
 /-- a history gives the same state whichever access path (Unsafe / Map / typed tuple) each operation uses -/
 theorem refine_any_access_path : type_of% @Ark.Props.C01Refine.any_access_path := @Ark.Props.C01Refine.any_access_path
 
+
+
+/-! ### … and with relation components (Props/C04Hist: the refinement machine with relation targets) -/
+
+/-- **refinement with relations**: every specification entry is realised — the entity is alive, its component set, every value AND every relation target are the specified ones -/
+theorem rel_refines : type_of% @Ark.Props.C04Hist.refines := @Ark.Props.C04Hist.refines
+
+/-- a component that is not specified is absent -/
+theorem rel_refines_absent : type_of% @Ark.Props.C04Hist.refines_absent := @Ark.Props.C04Hist.refines_absent
+
+/-- a call whose specification-level precondition fails (dead handle, component present/absent, dead target, …) panics with the world and the machine state unchanged -/
+theorem rel_rejected : type_of% @Ark.Props.C04Hist.rejected := @Ark.Props.C04Hist.rejected
+
+/-- every other expressible call succeeds — totality of all seven operations on every access path -/
+theorem rel_accepted : type_of% @Ark.Props.C04Hist.accepted := @Ark.Props.C04Hist.accepted
+
+/-- an operation on one entity changes no other entity's components, values or targets -/
+theorem rel_frame_world : type_of% @Ark.Props.C04Hist.frame_world := @Ark.Props.C04Hist.frame_world
+
+/-- `RemoveEntity(e)` changes, of the other entities, exactly the targets that were `e` -/
+theorem rel_frame_del : type_of% @Ark.Props.C04Hist.frame_del := @Ark.Props.C04Hist.frame_del
 
 end Ark.Props.C01
